@@ -276,6 +276,12 @@ def main(argv=None):
     units = [u['name'] if isinstance(u, dict) else u for u in units]
     if a.unit:
         units = [a.unit]
+    if os.environ.get('VERIF_SKIP_KANI'):
+        # development aid (seed regression of the Verus route only); evidence of such a run goes to the redirected directory
+        units = [u for u in units if not os.path.exists(os.path.join(ROOT, 'units', u, 'kani.json'))]
+        if not os.environ.get('VERIF_EVIDENCE_DIR'):
+            print('VERIF_SKIP_KANI needs VERIF_EVIDENCE_DIR', file=sys.stderr)
+            return 2
     t0 = time.time()
     os.makedirs(WORK, exist_ok=True)
     with cf.ThreadPoolExecutor(max_workers=max(1, min(4, len(units)))) as ex:
